@@ -312,6 +312,14 @@ pub enum Extra<T: Sc> {
     ModelCall(Result<(Vec<u64>, (usize, usize)), String>),
     /// tap mode: the optimizer ran on a tap around the problem
     Tapped(Box<TapObs<T>>),
+    /// concurrent callers on the shared problem: what a single caller saw immediately
+    /// before, and what every one of the simultaneous callers saw
+    Concurrent {
+        reference: (Snap, JacObs),
+        observed: Vec<Result<(Snap, JacObs), String>>,
+        /// the callers really were interleaved (shuttle threads), not run one after another
+        overlapped: bool,
+    },
     /// the op could not be applied (e.g. no problem left after a panic)
     Skipped,
 }
@@ -594,6 +602,20 @@ impl<T: Sc, F: Factory<T>> Runner<T, F> {
                     }
                 }
             },
+            Op::ConcurrentQueries(k) => {
+                let p = self.subject.as_ref().unwrap();
+                let overlapped = self.ctl.overlap.load(std::sync::atomic::Ordering::SeqCst);
+                match guarded(|| concurrent_queries(p, (*k).max(1) as usize, overlapped)) {
+                    Ok((reference, observed)) => {
+                        extra = Extra::Concurrent {
+                            reference,
+                            observed,
+                            overlapped,
+                        }
+                    }
+                    Err(e) => panic = Some(e),
+                }
+            }
             Op::ModelSetParams(_) | Op::ModelEval | Op::ModelDeriv(_) => {
                 // bare-model ops are interpreted by the C17 driver, not here
                 extra = Extra::Skipped;
@@ -627,6 +649,70 @@ impl<T: Sc, F: Factory<T>> Runner<T, F> {
         let log = self.ctl.log();
         log[st.ev_from.min(log.len())..st.ev_to.min(log.len())].to_vec()
     }
+}
+
+/// One caller queries the problem alone (the reference), then `k` callers query it at the
+/// same time through `&self`. Under the shuttle runtime (`overlapped`) the callers are shuttle
+/// threads: the model seam's scheduling points let the seeded scheduler interleave them
+/// inside `jacobian()` (and, for the parallel flavour, with the stolen arms of each caller's
+/// own column loop). Odd-numbered callers ask for the Jacobian first, the others last.
+#[allow(clippy::type_complexity)]
+pub fn concurrent_queries<T: Sc, M: Mdl<T>>(
+    p: &AnyProb<T, M>,
+    k: usize,
+    overlapped: bool,
+) -> ((Snap, JacObs), Vec<Result<(Snap, JacObs), String>>) {
+    let query = |p: &AnyProb<T, M>, i: usize| -> (Snap, JacObs) {
+        if i % 2 == 1 {
+            let j = jac_obs(p);
+            (snap(p), j)
+        } else {
+            let s = snap(p);
+            (s, jac_obs(p))
+        }
+    };
+    let reference = query(p, 0);
+    let mut observed = vec![];
+    if !overlapped {
+        for i in 0..k {
+            observed.push(Ok(query(p, i)));
+        }
+        return (reference, observed);
+    }
+    // shuttle threads need 'static closures: erase the borrow's lifetime; soundness rests on
+    // the unconditional joins below (this frame neither returns nor unwinds before them)
+    type Job<'a> = Box<dyn FnOnce() -> Result<(Snap, JacObs), String> + Send + 'a>;
+    let mut handles = vec![];
+    for i in 1..k {
+        // AnyProb<T, M> is Sync (M: Sync): sharing `&` across threads is what the type allows
+        let job: Job<'_> = Box::new(move || {
+            catch_unwind(AssertUnwindSafe(|| {
+                if i % 2 == 1 {
+                    let j = jac_obs(p);
+                    (snap(p), j)
+                } else {
+                    let s = snap(p);
+                    (s, jac_obs(p))
+                }
+            }))
+            .map_err(|_| take_panic().unwrap_or_else(|| "? <panic in a concurrent caller>".into()))
+        });
+        let job: Job<'static> = unsafe { std::mem::transmute::<Job<'_>, Job<'static>>(job) };
+        let h = shuttle::thread::spawn(move || job());
+        handles.push(h);
+    }
+    let mine = catch_unwind(AssertUnwindSafe(|| query(p, 0)))
+        .map_err(|_| take_panic().unwrap_or_else(|| "? <panic in a concurrent caller>".into()));
+    let mut rest = vec![];
+    for h in handles {
+        rest.push(match h.join() {
+            Ok(r) => r,
+            Err(_) => Err("? <concurrent caller thread died>".to_string()),
+        });
+    }
+    observed.push(mine);
+    observed.extend(rest);
+    (reference, observed)
 }
 
 /// direct calls on a bare model (C17)
